@@ -205,27 +205,39 @@ fn u_for_t(seq: &[u8]) -> Vec<u8> {
 }
 
 fn c04_one(ctx: &mut Ctx, set: &OligoSet, family: &str, seq: &[u8], invariances: bool) {
+    c04_one_as(ctx, set, family, seq, invariances, None)
+}
+
+/// `huge`: (unit, length) when the record is `fill(unit, length)` and too long to be written out in messages
+fn c04_one_as(ctx: &mut Ctx, set: &OligoSet, family: &str, seq: &[u8], invariances: bool, huge: Option<(&[u8], usize)>) {
     let k = set.k;
+    let disp = |x: &[u8]| match huge {
+        Some((u, n)) if x.len() == n => format!("<{:?} repeated to {} bases{}>", show(u), n, if x == seq { "" } else { ", variant" }),
+        _ => show(x),
+    };
     ctx.journal
-        .note(|| format!("C04 {} seq={} k={}", family, hex(seq), k));
-    let argv = vec!["case".to_string(), "C04".to_string(), hex(seq), k.to_string()];
+        .note(|| format!("C04 {} seq={} k={}", family, if huge.is_some() { disp(seq) } else { hex(seq) }, k));
+    let argv = match huge {
+        Some((u, n)) => vec!["case".to_string(), "C04huge".to_string(), hex(u), n.to_string(), k.to_string()],
+        None => vec!["case".to_string(), "C04".to_string(), hex(seq), k.to_string()],
+    };
     let size = seq.len() * 64 + k;
     let (cnt, tot) = model::oligo(seq, k, &set.index);
     ctx.rep.evaluations += 2;
     let r = guard(|| (set.norm.verif_vectorise_one(seq), set.raw.verif_vectorise_one(seq)));
     let (vn, vr) = match r {
-        Err(p) => return viol(ctx, "panic", size, format!("vectorise_one({:?}, k={k}) panicked: {p}", show(seq)), argv),
+        Err(p) => return viol(ctx, "panic", size, format!("vectorise_one({:?}, k={k}) panicked: {p}", disp(seq)), argv),
         Ok(t) => t,
     };
     if vn.len() != set.index.len() || vr.len() != set.index.len() {
-        return viol(ctx, "row-length", size, format!("vectorise_one({:?}, k={k}): {} / {} values, expected {}", show(seq), vn.len(), vr.len(), set.index.len()), argv);
+        return viol(ctx, "row-length", size, format!("vectorise_one({:?}, k={k}): {} / {} values, expected {}", disp(seq), vn.len(), vr.len(), set.index.len()), argv);
     }
     for i in 0..cnt.len() {
         if vr[i] != cnt[i] as f64 {
-            return viol(ctx, "raw-count", size, format!("vectorise_one({:?}, k={k}) counts mode: column {i} ({}) = {}, expected {}", show(seq), show(&model::text_of(set.index[i], k)), vr[i], cnt[i]), argv);
+            return viol(ctx, "raw-count", size, format!("vectorise_one({:?}, k={k}) counts mode: column {i} ({}) = {}, expected {}", disp(seq), show(&model::text_of(set.index[i], k)), vr[i], cnt[i]), argv);
         }
         if !model::close_to_ratio(vn[i], cnt[i], tot) {
-            return viol(ctx, "normalised-value", size, format!("vectorise_one({:?}, k={k}) normalised: column {i} ({}) = {}, expected {}/{}", show(seq), show(&model::text_of(set.index[i], k)), vn[i], cnt[i], tot), argv);
+            return viol(ctx, "normalised-value", size, format!("vectorise_one({:?}, k={k}) normalised: column {i} ({}) = {}, expected {}/{}", disp(seq), show(&model::text_of(set.index[i], k)), vn[i], cnt[i], tot), argv);
         }
     }
     if invariances {
@@ -233,10 +245,10 @@ fn c04_one(ctx: &mut Ctx, set: &OligoSet, family: &str, seq: &[u8], invariances:
             ctx.rep.evaluations += 1;
             let r = guard(|| (set.norm.verif_vectorise_one(&variant), set.raw.verif_vectorise_one(&variant)));
             match r {
-                Err(p) => return viol(ctx, "panic", size, format!("vectorise_one({:?}, k={k}) panicked: {p}", show(&variant)), argv),
+                Err(p) => return viol(ctx, "panic", size, format!("vectorise_one({:?}, k={k}) panicked: {p}", disp(&variant)), argv),
                 Ok((a, b)) => {
                     if a != vn || b != vr {
-                        return viol(ctx, "invariance", size, format!("vectorise_one k={k}: row of {:?} differs from row of its {name} variant {:?}", show(seq), show(&variant)), argv);
+                        return viol(ctx, "invariance", size, format!("vectorise_one k={k}: row of {:?} differs from row of its {name} variant {:?}", disp(seq), disp(&variant)), argv);
                     }
                 }
             }
@@ -409,6 +421,19 @@ pub fn c04(ctx: &mut Ctx) {
                 c04_one(ctx, &sets[k - 1], "long-record", &s, true);
                 ctx.rep.nontrivial += 1;
                 ctx.rep.count("cases.long_records", 1);
+            }
+        }
+    }
+    // one record with more windows than a single-precision float or a 24-bit counter can count (2^24): all of
+    // them in one column (single letter), and spread over a few columns (period 3)
+    for unit in [&b"A"[..], b"ACG", b"t"] {
+        for k in [1usize, 3] {
+            if sh.mine() {
+                let n = (1usize << 24) + 9 + k;
+                let s = fill(unit, n);
+                c04_one_as(ctx, &sets[k - 1], "huge-record", &s, false, Some((unit, n)));
+                ctx.rep.nontrivial += 1;
+                ctx.rep.count("cases.huge_records", 1);
             }
         }
     }
@@ -803,19 +828,31 @@ pub fn c11(ctx: &mut Ctx) {
 // ------------------------------------------------------------------------------------------ C12
 
 fn c12_one(ctx: &mut Ctx, k: usize, s_size: usize, norm: bool, comp: &OligoCgrComputer, oligo: &OligoComputer, index: &[u128], seq: &[u8]) {
+    c12_one_as(ctx, k, s_size, norm, comp, oligo, index, seq, None)
+}
+
+#[allow(clippy::too_many_arguments)]
+fn c12_one_as(ctx: &mut Ctx, k: usize, s_size: usize, norm: bool, comp: &OligoCgrComputer, oligo: &OligoComputer, index: &[u128], seq: &[u8], huge: Option<(&[u8], usize)>) {
+    let disp = |x: &[u8]| match huge {
+        Some((u, n)) => format!("<{:?} repeated to {} bases>", show(u), n),
+        None => show(x),
+    };
     ctx.journal
-        .note(|| format!("C12 seq={} k={} S={} norm={}", hex(seq), k, s_size, norm));
-    let argv = vec!["case".to_string(), "C12".to_string(), hex(seq), k.to_string(), s_size.to_string(), (norm as u8).to_string()];
+        .note(|| format!("C12 seq={} k={} S={} norm={}", if huge.is_some() { disp(seq) } else { hex(seq) }, k, s_size, norm));
+    let argv = match huge {
+        Some((u, n)) => vec!["case".to_string(), "C12huge".to_string(), hex(u), n.to_string(), k.to_string(), s_size.to_string(), (norm as u8).to_string()],
+        None => vec!["case".to_string(), "C12".to_string(), hex(seq), k.to_string(), s_size.to_string(), (norm as u8).to_string()],
+    };
     let size = seq.len() * 64 + k;
     ctx.rep.evaluations += 1;
     let got = guard(|| (comp.verif_vectorise_one(seq), oligo.verif_vectorise_one(seq)));
     let (row, freqs) = match got {
-        Err(p) => return viol(ctx, "panic", size, format!("k-mer cgr({:?}, k={k}, S={s_size}) panicked: {p}", show(seq)), argv),
-        Ok((Err(e), _)) => return viol(ctx, "error", size, format!("k-mer cgr({:?}, k={k}, S={s_size}) = Err({e})", show(seq)), argv),
+        Err(p) => return viol(ctx, "panic", size, format!("k-mer cgr({:?}, k={k}, S={s_size}) panicked: {p}", disp(seq)), argv),
+        Ok((Err(e), _)) => return viol(ctx, "error", size, format!("k-mer cgr({:?}, k={k}, S={s_size}) = Err({e})", disp(seq)), argv),
         Ok((Ok(r), f)) => (r, f),
     };
     if row.len() != index.len() {
-        return viol(ctx, "row-length", size, format!("k-mer cgr({:?}, k={k}): {} triples, expected {}", show(seq), row.len(), index.len()), argv);
+        return viol(ctx, "row-length", size, format!("k-mer cgr({:?}, k={k}): {} triples, expected {}", disp(seq), row.len(), index.len()), argv);
     }
     let (cnt, tot) = model::oligo(seq, k, index);
     for (r, ((p, f), &code)) in row.iter().zip(index.iter()).enumerate() {
@@ -825,11 +862,11 @@ fn c12_one(ctx: &mut Ctx, k: usize, s_size: usize, norm: bool, comp: &OligoCgrCo
             return viol(ctx, "coordinate", size, format!("k-mer cgr k={k} S={s_size}: column {r} ({}) at ({},{}) expected ({}/2^{}, {}/2^{})", show(&text), p.0, p.1, e.0, e.2, e.1, e.2), argv);
         }
         if *f != freqs[r] {
-            return viol(ctx, "differs-from-oligo", size, format!("k-mer cgr({:?}, k={k}, norm={norm}): column {r} frequency {} but the oligo vector has {}", show(seq), f, freqs[r]), argv);
+            return viol(ctx, "differs-from-oligo", size, format!("k-mer cgr({:?}, k={k}, norm={norm}): column {r} frequency {} but the oligo vector has {}", disp(seq), f, freqs[r]), argv);
         }
         let ok = if norm { model::close_to_ratio(*f, cnt[r], tot) } else { *f == cnt[r] as f64 };
         if !ok {
-            return viol(ctx, "frequency", size, format!("k-mer cgr({:?}, k={k}, norm={norm}): column {r} frequency {}, expected {}/{}", show(seq), f, cnt[r], if norm { tot } else { 1 }), argv);
+            return viol(ctx, "frequency", size, format!("k-mer cgr({:?}, k={k}, norm={norm}): column {r} frequency {}, expected {}/{}", disp(seq), f, cnt[r], if norm { tot } else { 1 }), argv);
         }
     }
 }
@@ -1033,6 +1070,25 @@ pub fn c12(ctx: &mut Ctx) {
             }
         }
     }
+    // one record with more than 2^24 windows (in one column; spread over three columns)
+    for unit in [&b"A"[..], b"ACG"] {
+        for norm in [true, false] {
+            if !sh.mine() {
+                continue;
+            }
+            let k = 3usize;
+            let len = (1usize << 24) + 9 + k;
+            let s = fill(unit, len);
+            let mut comp = OligoCgrComputer::new("-".into(), "-".into(), k, 16);
+            comp.set_norm(norm);
+            let mut oligo = OligoComputer::new("-".into(), "-".into(), k);
+            oligo.set_norm(norm);
+            c12_one_as(ctx, k, 16, norm, &comp, &oligo, &model::canon_index(k), &s, Some((unit, len)));
+            n += 1;
+            ctx.rep.nontrivial += 1;
+            ctx.rep.count("cases.huge_records", 1);
+        }
+    }
     ctx.rep.count("cases.per_record", n);
     // file path
     let mut sh = ctx.shard;
@@ -1104,6 +1160,20 @@ pub fn replay(ctx: &mut Ctx, args: &[String]) {
         "C11reuse" | "C12reuse" => {
             let steps: Vec<&str> = args[1..].iter().map(|s| s.as_str()).collect();
             cgr_reuse_sequence(ctx, args[0] == "C12reuse", &steps);
+        }
+        "C12huge" => {
+            let (u, n, k, sz, norm): (Vec<u8>, usize, usize, usize, bool) = (unhex(&args[1]), args[2].parse().unwrap(), args[3].parse().unwrap(), args[4].parse().unwrap(), args[5] == "1");
+            let s = fill(&u, n);
+            let mut comp = OligoCgrComputer::new("-".into(), "-".into(), k, sz);
+            comp.set_norm(norm);
+            let mut oligo = OligoComputer::new("-".into(), "-".into(), k);
+            oligo.set_norm(norm);
+            c12_one_as(ctx, k, sz, norm, &comp, &oligo, &model::canon_index(k), &s, Some((&u, n)))
+        }
+        "C04huge" => {
+            let (u, n, k): (Vec<u8>, usize, usize) = (unhex(&args[1]), args[2].parse().unwrap(), args[3].parse().unwrap());
+            let s = fill(&u, n);
+            c04_one_as(ctx, &oligo_set(k), "replay", &s, false, Some((&u, n)))
         }
         "C04long" => {
             let long_set: Vec<Vec<u8>> = vec![crate::iters::long_input(70_000, 4), b"ACGU".to_vec(), crate::iters::long_input(66_000, 9), crate::iters::long_input(4097, 1), b"".to_vec(), crate::iters::long_input(140_000, 12)];
